@@ -163,6 +163,22 @@ def c16(run, a):
 def c17(run, a):
     vlib.extract()
     vlib.standard_lean_phase(run, 'BytesVerif.Props.C17', 'BytesVerif.Cert.C17')
+    # the general adversary (answers may change on every call): Props/C17Gen.lean, audited theorem by theorem
+    gmod = 'BytesVerif.Props.C17Gen'
+    gres = vlib.lake_build([gmod])
+    gnames = vlib.theorem_names('BytesVerif/Props/C17Gen.lean')
+    if gres[gmod][0]:
+        gok, gfound, gproblems = vlib.audit_axioms([gmod], gnames, 'C17_C17Gen')
+        for t in gnames:
+            bad = [q for q in gproblems if q.startswith(t + ':')]
+            run.obligation(t, not bad, '; '.join(bad))
+            run.axioms[t] = gfound.get(t)
+        if gproblems:
+            run.breakage(f'axiom audit of {gmod}', '\n'.join(gproblems))
+    else:
+        for t in gnames:
+            run.obligation(t, False, 'module does not build')
+        run.breakage(f'{gmod} no longer checks', '\n'.join([l for l in gres[gmod][1].splitlines() if 'error' in l][:10]))
     run.trusted += [
         "the adversary model Model/Adv.lean (M6): hand transliteration of the default Buf consumers (try_copy_to_slice, copy_to_slice, the "
         "buf_try_get_impl!/buf_get_impl! arms, get_u8), the default BufMut::put into a fixed destination, BytesMut::put / Vec::put "
@@ -175,6 +191,8 @@ def c17(run, a):
         "consumers not in M6 (the stale / flicker / cursor adversary families, from_owner, Extend/FromIterator, serde visitors) are "
         "covered by T2's allocator oracle only (ledger allocator: red zones, poison + quarantine, layout-exact frees, balance after unwinding); "
         "out-of-bounds *reads* that stay inside some live allocation are visible only through wrong values / the model comparison",
+        "Model/AdvGen.lean: the same consumers over an adversary whose answers may change on every call (any function of advance count and "
+        "call count); tied through the instance ofScript: the judge evaluates the general model next to M6 on every modelled case",
         "harness hseq adv stream (LyingBuf / LyingOwner / LyingIter) + judge parser",
     ]
     cfgs = ['debug', 'release'] if run.tier == 'thorough' else ['debug', 'release']
@@ -219,6 +237,8 @@ def c17(run, a):
                        "iterators with wrong size hints (5 cases); under the ledger allocator; quick 4000 scripts, thorough 40000; debug and release; "
                        "distinct_nontrivial = cases whose outcome was also compared with the M6 model")
     run.samples += ['adv get_u32 9:0:0,2:9:0 1 -> v_66051 ledger=ok leak=0',
+                    'theorem AdvGen.tryGetFixed_no_ub (fuel) (b : GAdv) (size) : NoUB (tryGetFixed fuel b size)   -- b.answers : Nat → Nat → Lie arbitrary',
+                    'theorem AdvGen.getFixedRefetch_flicker_ub : ∃ w, getFixedRefetch flicker 8 = .ub w',
                     'theorem tryGetFixed_no_ub (fuel b size) : NoUB (tryGetFixed fuel b size)',
                     'theorem putGrowBad_reaches_ub : ∃ w, putGrowBad 10 liar 0 8 = .ub w']
     return run.finish()
